@@ -203,3 +203,78 @@ def diff(a, b, path="", tol=0.0, out=None, limit=12):
     elif a != b:
         out.append((path, a, b))
     return out
+
+
+# ---------------------------------------------------------------------------- semantic view for the INP round trip (C12)
+
+WNTR_ONLY_NODE_KEYS = {"leak", "leak_area", "leak_discharge_coeff", "minimum_pressure", "required_pressure", "pressure_exponent"}
+
+
+def inp_view(wn):
+    """what an INP file can carry (statement of C12): elements by name, attributes, patterns, curves that are referred to,
+    demand categories, sources without names, options, controls and rules. WNTR-only settings are left out."""
+    d = normalize_json(wntr.network.to_dict(wn))
+    existing = {p["name"] for p in d["patterns"] if len(p["multipliers"]) > 0}
+
+    def pat(x):      # a pattern name that refers to no (non-empty) pattern means "no pattern"
+        return x if x in existing else None
+    nodes = {}
+    for n in d["nodes"]:
+        n = dict(n)
+        for k in WNTR_ONLY_NODE_KEYS:
+            n.pop(k, None)
+        for dem in n.get("demand_timeseries_list", []) or []:
+            dem["pattern_name"] = pat(dem.get("pattern_name"))
+        for k in ("demand_pattern", "pattern_name", "head_pattern_name"):
+            if k in n:
+                n[k] = pat(n[k])
+        if "coordinates" in n and n["coordinates"] is not None:
+            n["coordinates"] = [float(x) for x in n["coordinates"]]
+        nodes[n["name"]] = n
+    links = {}
+    for l in d["links"]:
+        l = dict(l)
+        l["vertices"] = [[float(x) for x in v] for v in l.get("vertices", [])]
+        links[l["name"]] = l
+    used_curves = set()
+    for l in links.values():
+        for k in ("pump_curve_name", "headloss_curve_name"):
+            if l.get(k):
+                used_curves.add(l[k])
+        if l.get("efficiency") and isinstance(l["efficiency"], dict):
+            used_curves.add(l["efficiency"].get("name"))
+    for n in nodes.values():
+        if n.get("vol_curve_name"):
+            used_curves.add(n["vol_curve_name"])
+    curves = {c["name"]: c for c in d["curves"] if c["name"] in used_curves}
+    patterns = {p["name"]: p for p in d["patterns"] if len(p["multipliers"]) > 0}
+    sources = sorted((s["node_name"], s["source_type"], round(float(s["strength"]), 9), s["pattern"] or None) for s in d["sources"])
+    controls = sorted(json_key(c) for c in (strip_control(c) for c in d["controls"]))
+    opts = copy_opts(d["options"])
+    if "hydraulic" in opts:
+        opts["hydraulic"]["pattern"] = pat(opts["hydraulic"].get("pattern"))
+    return dict(nodes=nodes, links=links, curves=curves, patterns=patterns, sources=sources, controls=controls, options=opts)
+
+
+def strip_control(c):
+    c = dict(c)
+    if c.get("type") == "simple":
+        c.pop("name", None)      # simple controls have no names in an INP file
+    return c
+
+
+def json_key(c):
+    import json
+    return json.dumps(c, sort_keys=True, default=str)
+
+
+def copy_opts(o):
+    import copy
+    o = copy.deepcopy(o)
+    o.get("time", {}).pop("pattern_interpolation", None)              # WNTR-only
+    o.get("hydraulic", {}).pop("inpfile_units", None)                 # the unit system the file is written in (an argument of write_inpfile)
+    o.get("hydraulic", {}).pop("inpfile_pressure_units", None)
+    o.pop("graphics", None)
+    o.pop("user", None)
+    o.get("report", {})
+    return o
